@@ -595,3 +595,54 @@ def shift_arms(proj, rep, canon):
         rep.ok('D3', construct, f'{how} rewrites the entry' + (' and gate.index' if kind == 'measure' and reads_own_index else ''), cm, stores[0],
                text=f'shift arm {kind}')
     return n
+
+
+# ------------------------------------------------------------------------------------------------ A6
+RULES['A6'] = ('A6: an index table T = nonzero(mask) / argwhere(mask) lists one row per selected entry, one column per axis of the mask. Where '
+               'it indexes an array, column 0 goes on axis 0 and the columns are used from 0 upwards: `X[T[:,0], T[:,1], ...]`. Using a later '
+               'column while axis 0 is `:` applies the selection of one batch element to the whole batch (the 0/0 mask of the sqrtm backward '
+               'would zero gradient entries of full-rank neighbours).')
+
+
+def a6(proj, rep, modules):
+    rep.rule('A6', RULES['A6'])
+    n = 0
+    for mq in modules:
+        m = proj.mod(mq)
+        rep.touch(m)
+        for fi in [f for f in proj.funcs.values() if f.module is m]:
+            tables = set()
+            for st in ast.walk(fi.node):
+                if isinstance(st, ast.Assign) and isinstance(st.targets[0], ast.Name) and isinstance(st.value, ast.Call):
+                    f = st.value.func
+                    nm = f.attr if isinstance(f, ast.Attribute) else getattr(f, 'id', '')
+                    if nm in ('nonzero', 'argwhere') and isinstance(f, ast.Attribute) and isinstance(f.value, ast.Name) and f.value.id == 'torch' \
+                            or nm == 'argwhere':
+                        tables.add(st.targets[0].id)
+            if not tables:
+                continue
+            for sub in ast.walk(fi.node):
+                if not (isinstance(sub, ast.Subscript) and isinstance(sub.slice, ast.Tuple)):
+                    continue
+                cols = []
+                for pos, e in enumerate(sub.slice.elts):
+                    if isinstance(e, ast.Subscript) and isinstance(e.value, ast.Name) and e.value.id in tables and isinstance(e.slice, ast.Tuple) \
+                            and len(e.slice.elts) == 2 and isinstance(e.slice.elts[1], ast.Constant):
+                        cols.append((pos, e.slice.elts[1].value, e.value.id))
+                if not cols:
+                    continue
+                n += 1
+                st = sub
+                while not isinstance(st, ast.stmt):
+                    st = getattr(st, '_parent')
+                used = [c for _, c, _ in cols]
+                first_pos, first_col, t = cols[0]
+                if 0 not in used or first_pos != 0 or first_col != 0:
+                    rep.violation('A6', fi.qual, f'`{ast.unparse(sub)}`: the index table {t} is used with column(s) {sorted(set(used))} but its column 0 '
+                                  f'(the batch index) is not on axis 0: the selection is applied to every batch element', m, st)
+                elif sorted(set(used)) != list(range(max(used) + 1)):
+                    rep.violation('A6', fi.qual, f'`{ast.unparse(sub)}`: columns {sorted(set(used))} of {t} are used, a lower column is skipped', m, st)
+                else:
+                    rep.ok('A6', fi.qual, f'`{ast.unparse(sub)}`: columns {sorted(set(used))} of {t}, column 0 on axis 0', m, st)
+    rep.count('A6.sites', n)
+    return n
